@@ -193,6 +193,8 @@ def run(chk):
         picked = [c for c in picked if not any(e['t'] == 'RamanFiber' for e in c['g'])
                   or (c['s']['padding'] > 0 and c['s']['eol'] == 0
                       and (c['s']['powerMode'] or any(e['t'] == 'Edfa' for e in c['g'])))]
+    if tier == 'quick':       # a 1200 km link is 2 x 13..15 spans, six designs each: half of its settings
+        picked = [c for c in picked if not any(e['l'] >= 1200000 for e in c['g']) or c['s']['padding'] > 0]
     du.reset_sim()
     traces = []
     for c, (tr, viol) in zip(picked, du.parallel_map(_b2_one, picked)):
